@@ -9,6 +9,7 @@ Metamorphic monitors (two executions of the real code that must agree):
    text was taken from also after the rule (set) has been evaluated, so that "parse(print(r)) prints like r" holds at
    any moment of r's life and not only right after parsing."""
 import json
+import os
 
 from unittest import mock
 
@@ -28,7 +29,7 @@ RULE = ('cases = T: expression-generator rules in text form over leaves of every
         'accept / early leaves reject first, alternating with the opposite, printing after every evaluation: the print must stay the first print, stay a '
         'fix-point of print-parse, and the rule parsed from the FIRST print must print and decide like the evaluated object; every rule of an S set is '
         'enforced in all worlds and the dump must be unchanged and still describe the living set; identical RuleDefaults must be and stay equal. Decisions are taken in 24 worlds (credentials x target) '
-        'chosen so that every leaf kind varies. Non-trivial = the decision vector is not constant; distinct = distinct rule value.')
+        'chosen so that every leaf kind varies. Non-trivial = the decision vector is not constant; distinct = distinct rule value. Stratum `first-use`: in a fresh interpreter per schedule, two threads parse, print and decide one rule each (http / https / role / attribute leaves) as the very first use of the library, the first pre-empted at a sampled line boundary (lazy set-up such as the scan for plugin check kinds happens inside these calls): both must print and decide as when run one after the other, and the printed text parsed again afterwards must print and decide the same.')
 ASSUMPTIONS = ['leaves contain no whitespace and, in list form, no leading ( or trailing ) - the tokenizer can never produce such a leaf from text',
                'a lone quoted string is not a rule of the language (C02 covers it)',
                'http(s) checks answer through a stub of requests.post: URL path /yes -> True, anything else -> False']
@@ -36,8 +37,8 @@ LEVEL_TEXT = ('Seeded sampling of rules over all leaf kinds; each is printed and
               'are executed in 24 worlds. Nothing in the suite re-parses printed output; the language is infinite, so sampling '
               'with all leaf kinds and shapes is the level.')
 LEVEL_NOTE = 'trusted: the world set distinguishes rules only up to those 24 evaluations; a stub of requests.post as transport'
-PLAN = {'quick': dict(shards=4, wall=60), 'thorough': dict(shards=16, wall=400)}
-MIN = {'evaluations': 2000, 'reparsed_rules': 2000, 'rulesets_roundtripped': 100, 'eq_true_pairs': 50,
+PLAN = {'quick': dict(shards=4, wall=120), 'thorough': dict(shards=16, wall=400)}
+MIN = {'first_use_schedules': 16, 'first_use_schedules_inside_lazy_setup': 8, 'evaluations': 2000, 'reparsed_rules': 2000, 'rulesets_roundtripped': 100, 'eq_true_pairs': 50,
        'printed_forms_with_multiple_sources': 50, 'second_dumps': 50,
        'prints_after_evaluation': 10000, 'histories_with_or_alternatives': 150, 'dumps_after_enforcing': 100,
        'identical_ruledefaults_after_evaluation': 300}
@@ -477,7 +478,43 @@ def fake_post(url, **kw):
     return _Reply('True' if url.split('?')[0].endswith('/yes') else 'False')
 
 
+FIRST_USE = {'quick': 4, 'thorough': 40}        # sampled schedules per shard beside the systematic ones, each in a fresh interpreter
+
+
+def judge_first_use(ctx, case, base, got):
+    """Two threads used the library for the very first time in a process, at the same time (see pv/mon/firstuse.py)."""
+    from pv.mon import firstuse
+    pair = case['pair']
+    detail = {'rules': list(firstuse.PAIRS[pair % len(firstuse.PAIRS)]) if isinstance(pair, int) else pair,
+              'a_preempted_at_boundary': case['k'], 'b_runs_until': case['j'] or 'completion',
+              'a_preempted_at': got['stopped_at'].get('A'), 'one_after_the_other': base['first'], 'at_the_same_time': got['first'],
+              'printed_text_parsed_again_afterwards': got['again']}
+    for n in 'AB':
+        first, again = got['first'].get(n), got['again'].get(n)
+        if first != base['first'].get(n):
+            ctx.violation('first-use-race-changes-parsed-rule', case, detail)
+            return
+        if not isinstance(first, list) or not isinstance(again, list):
+            ctx.violation('first-use-race-changes-parsed-rule', case, detail)
+            return
+        if again[0] != first[0]:
+            ctx.violation('printed-form-not-a-fix-point', case, detail)
+            return
+        if again[1] != first[1]:
+            ctx.violation('reparsed-rule-decides-differently', case, detail)
+            return
+
+
+def run_first_use(ctx):
+    from pv.mon import firstuse
+    npairs = len(firstuse.PAIRS)
+    ctx.stratum('first-use', exhaustive=False)
+    firstuse.schedules(ctx, ctx.shard % npairs, judge_first_use, FIRST_USE[ctx.tier], 24 if ctx.tier == 'quick' else 120,
+                       parity=(ctx.shard // npairs + ctx.shard) % 2 if ctx.tier == 'quick' else None)
+
+
 def run(ctx):
+    ctx.reserve(0.7)          # the first-use stratum (fresh interpreters) keeps its share of the wall budget
     real = Real()
     with mock.patch('requests.post', fake_post):
         n = N[ctx.tier] // ctx.nshards + 1
@@ -490,9 +527,14 @@ def run(ctx):
                 ctx.sample(case, case['kind'])
     ctx.count('distinct_printed_forms', len(PRINTED))
     ctx.stratum('random', exhaustive=False)
+    ctx.release()
+    run_first_use(ctx)
 
 
 def replay(ctx, case):
+    if case.get('first_use'):
+        from pv.mon import firstuse
+        return firstuse.replay_one(ctx, case, judge_first_use)
     real = Real()
     with mock.patch('requests.post', fake_post):
         check_case(ctx, real, case)
